@@ -191,9 +191,9 @@ def small_inv(kind):
 def embed_case(c, dgf, scf, unit):
     """model batch -> JSON for Driver.lean.  dgf: digest map, scf(kind, v): scalar map, unit: amount unit"""
     ch = [{"asset": scf("asset", x["asset"]), "out1": x["out1"] * unit, "out2": x["out2"] * unit, "fee": scf("fee", x["fee"]),
-           "null": dgf(x["null"]), "exit1": dgf(x["exit1"]), "exit2": dgf(x["exit2"]), "block": dgf(x["block"]),
+           "null": dgf(x["null"], "null"), "exit1": dgf(x["exit1"], "acct"), "exit2": dgf(x["exit2"], "acct"), "block": dgf(x["block"], "block"),
            "number": scf("number", x["number"])} for x in c["ch"]]
-    return {"ch": ch, "hh": [dgf(h) for h in c["hh"]]}
+    return {"ch": ch, "hh": [dgf(h, "null") for h in c["hh"]]}
 
 
 def cand_from_vector(name, v, n):
@@ -244,13 +244,14 @@ def three_way(ctx, formal, cases, tally):
     emb, rows = rows[0]["emb"], rows[1:1 + len(cases)]
     unit = emb["amt_unit"]
     real_inv = {tuple(v): int(k) for k, v in emb["dig"].items()}
+    real_inv.update({tuple(v): int(k) for k, v in emb.get("eq", {}).items()})
     lean_in = []
     for idx, c in enumerate(work):
         assert c["kind"] == "model" and c["ch"] == cases[idx]["ch"]
         n, kind = c["n"], SMALL[idx % 3]
-        a = embed_case(c, lambda v: small_dig(kind, v), lambda k, v: v, 1)
+        a = embed_case(c, lambda v, role="null": small_dig(kind, v), lambda k, v: v, 1)
         a.update(id=2 * idx, cands=[cand_from_vector("tla", small_expected_vector(c, kind), n)] if c["acc"] else [])
-        b = embed_case(c, lambda v: W.dg(emb, v), lambda k, v: W.sc(emb, c, k, v), unit)
+        b = embed_case(c, lambda v, role="null": W.dg(emb, v, role), lambda k, v: W.sc(emb, c, k, v), unit)
         h = rows[idx]["honest"]
         b.update(id=2 * idx + 1, cands=([cand_from_vector("tla", W.pb_expected(c, emb), n)] if c["acc"] else [])
                  + ([cand_from_vector("circuit", h["pis"], n)] if h["acc"] and len(h["pis"]) >= 8 + 14 * n else []))
